@@ -3,7 +3,8 @@
    (2) the fast-path shape table: cancel-check -> effect -> yield, or checkpoint -> effect;
    (3) the real primitive models take exactly those first segments;
    (4) itertools traversals: props/C08_itertools.v (same cone, imported here). *)
-From AV Require Import Base Machine CheckpointFacts FastPath FastPathProofs FastPathModels.
+From AV Require Import Base Machine CheckpointFacts CkifPinned FastPath FastPathProofs FastPathModels.
+From AV Require TreeStep.
 From AV Require C08_itertools.
 From AV Require Lock Sem Limiter EventCond MemStream C10Defs.
 
@@ -17,11 +18,42 @@ Print Assumptions C08_ckif_suspends_iff_effectively_cancelled.
 Theorem C08_ckif_spin_resume : forall s t fo,
   k_ctl (tasks s t) = CYield YCkIf ->
   match snd (incoming s t fo) with
-  | None => snd (resume s t fo) = RBlocked
+  | None => snd (resume s t fo) =
+            if ckif_spins (nscope s) s (k_cur (tasks s t)) then RBlocked else RRet 0
   | Some e => snd (resume s t fo) = RExc e
   end.
 Proof. exact ckif_spin_resume. Qed.
 Print Assumptions C08_ckif_spin_resume.
+
+(* F46: the "suspends iff" statement holds at EVERY re-check of the spin, not only at entry.  When the loop runs the step
+   callback of a task that is spinning in checkpoint_if_cancelled and carries no cancellation request, the task yields
+   again iff a cancelled scope is (still) visible from its current scope, and returns normally otherwise.  Any state. *)
+Theorem C08_ckif_respin_iff_effectively_cancelled : forall s t,
+  In (HStep t) (ready s) -> k_ctl (tasks s t) = CYield YCkIf -> k_must (tasks s t) = false ->
+  snd (step s (ARun (HStep t))) =
+    if eff_cancelled_from (nscope s) s (k_cur (tasks s t)) then RBlocked else RRet 0.
+Proof. exact ckif_respin_iff_effectively_cancelled. Qed.
+Print Assumptions C08_ckif_respin_iff_effectively_cancelled.
+
+(* Refuted for the loop as it was before F46 (step_pinned = today's step except that a spinning task without a request
+   yields again unconditionally: the loop kept the scope it had found at entry).  f46_ops: task 1 sleeps in scope 2
+   inside scope 1 and its sleep is over; task 2 cancels scope 1 (the delivery skips task 1, which is about to resume);
+   task 1 resumes and calls checkpoint_if_cancelled, which suspends; task 2 sets shield = True on scope 2; the delivery
+   callback of scope 1 runs, reaches nobody and is not re-scheduled.  In the state f46_state after that: task 1 is
+   alone in the ready queue, spinning, no request recorded; no cancelled scope is visible from its scope 2; scope 1 has
+   no delivery callback, there is no timer.  Today's step returns 0 to the task.  The pinned step suspends it again with
+   the queue again [HStep 1]. *)
+Theorem C08_ckif_respin_refuted_pinned :
+  TreeStep.ops_ok init f46_ops = true /\
+  nth 11 (snd (run_ops step init f46_ops)) RNone = RBlocked /\
+  spinning f46_state 1 /\ k_cur (tasks f46_state 1) = Some 2 /\
+  s_cancelled (scopes f46_state 1) = true /\ s_shield (scopes f46_state 2) = true /\
+  eff_cancelled f46_state 2 = false /\ s_chandle (scopes f46_state 1) = false /\ timers f46_state = [] /\
+  snd (step f46_state (ARun (HStep 1))) = RRet 0 /\
+  snd (step_pinned f46_state (ARun (HStep 1))) = RBlocked /\
+  ready (fst (step_pinned f46_state (ARun (HStep 1)))) = [HStep 1].
+Proof. exact ckif_spin_without_delivery_witness. Qed.
+Print Assumptions C08_ckif_respin_refuted_pinned.
 
 Theorem C08_checkpoint_always_suspends : forall s t, idle s t = true -> snd (step s (AYield t)) = RBlocked.
 Proof. exact yield_always_suspends. Qed.
